@@ -77,6 +77,49 @@ type c14Mesh struct {
 	sc   c14Scenario
 	gens []c14Gen
 	ttl  time.Duration
+	// own[i] is agent i's sequence counter as its OWN activity accounts for it: the value after
+	// construction (configured routes) plus what the counter moved by while the agent itself was
+	// numbering something (announcements, full tables on a connect). What the counter moves by while
+	// the agent is handling a RECEIVED frame is not added. On the unchanged code the two are equal
+	// (no handler touches the counter); the model exists to tell apart WHY a replay carried the number
+	// it carried (witness class of a violation), never to decide a verdict.
+	own []uint64
+	// stampOwn[{X, s}] = own[X] right after relay X made the full-table replay in which it sent routes
+	// of the origin under sequence s: the highest number that replay could carry by X's own numbering.
+	stampOwn map[[2]uint64]uint64
+}
+
+func (m *c14Mesh) counters() []uint64 {
+	out := make([]uint64, m.net.n)
+	for i, a := range m.net.agents {
+		out[i] = a.routeMgr.GetCurrentSequence()
+	}
+	return out
+}
+
+// ownStep runs f (an action in which agents number things themselves: no frame is handled) and adds
+// the movement of every counter to the own-numbering model.
+func (m *c14Mesh) ownStep(f func()) {
+	before := m.counters()
+	f()
+	for i, c := range m.counters() {
+		m.own[i] += c - before[i]
+	}
+}
+
+// connect brings link a-b up (real handlePeerConnected -> SendFullTable both ways) and records, for
+// every replay of the origin's routes written by it, the replaying agent's own numbering.
+func (m *c14Mesh) connect(a, b int) {
+	mark := len(m.net.sent)
+	m.ownStep(func() { m.net.connect(a, b) })
+	oid := m.net.ids[m.sc.Origin]
+	for _, f := range m.net.sent[mark:] {
+		adv := nsAdvInfo(f.Bytes)
+		if adv == nil || adv.OriginAgent != oid || f.From == m.sc.Origin {
+			continue
+		}
+		m.stampOwn[[2]uint64{uint64(f.From), adv.Sequence}] = m.own[f.From]
+	}
 }
 
 func c14Build(sc c14Scenario, hist []string) (*c14Mesh, error) {
@@ -91,7 +134,8 @@ func c14Build(sc c14Scenario, hist []string) (*c14Mesh, error) {
 	if err != nil {
 		return nil, err
 	}
-	m := &c14Mesh{net: net, sc: sc}
+	m := &c14Mesh{net: net, sc: sc, stampOwn: map[[2]uint64]uint64{}}
+	m.own = m.counters()
 	m.ttl = net.agents[0].cfg.Routing.RouteTTL
 	if m.ttl <= 0 || m.ttl >= c14Age {
 		net.close()
@@ -99,11 +143,11 @@ func c14Build(sc c14Scenario, hist []string) (*c14Mesh, error) {
 	}
 	for i, k := range sc.Pre {
 		for j := 0; j < k; j++ {
-			net.agents[i].flooder.AnnounceLocalRoutes()
+			m.ownStep(net.agents[i].flooder.AnnounceLocalRoutes)
 		}
 	}
 	for _, e := range sc.Edges {
-		net.connect(e[0], e[1])
+		m.connect(e[0], e[1])
 	}
 	for _, ev := range hist {
 		if err := m.apply(ev); err != nil {
@@ -127,7 +171,7 @@ func (m *c14Mesh) apply(ev string) error {
 		}
 		mark := len(m.net.sent)
 		lo := m.net.agents[i].routeMgr.GetCurrentSequence() + 1
-		m.net.agents[i].flooder.AnnounceLocalRoutes()
+		m.ownStep(m.net.agents[i].flooder.AnnounceLocalRoutes)
 		if i == m.sc.Origin {
 			g := c14Gen{Lo: lo, Seq: m.net.agents[i].routeMgr.GetCurrentSequence(), Mark: mark}
 			d := m.net.dist()
@@ -143,7 +187,7 @@ func (m *c14Mesh) apply(ev string) error {
 		return err
 	case "c":
 		e := m.sc.LateEdges[at(1)]
-		m.net.connect(e[0], e[1])
+		m.connect(e[0], e[1])
 	case "x":
 		// late link k goes down again (real disconnect path). Never enabled in the search (the
 		// oracle assumes links are only added); available in hand-written replay files, used for
@@ -249,6 +293,55 @@ func c14Why(replays map[uint64]bool, lo, hi uint64) string {
 	return "replay-used-lower-sequence"
 }
 
+// c14Behind is the witness-class suffix for "the relay's own numbering was behind the origin's".
+const c14Behind = "/relay-own-numbering-behind-origin"
+
+// regime refines a "replay-used-same-sequence" / "replay-used-higher-sequence" witness: it looks at the
+// replays of O's routes sent to x (x < 0: to anybody) under a number inside (same) or above (higher)
+// the announcement lo..hi and asks whether each of them was made by a relay that, going by its OWN
+// numbering (own-numbering model, see c14Mesh.own), was still below lo when it made the replay. In
+// that regime a relay numbering from its own counter stamps the replay below the origin's
+// announcement and the announcement wins; a collision there means something else than the relay's own
+// activity moved its counter up to the origin's numbers. Returns c14Behind or "".
+func (m *c14Mesh) regime(x int, lo, hi uint64, why string) string {
+	if why != "replay-used-same-sequence" && why != "replay-used-higher-sequence" {
+		return ""
+	}
+	oid := m.net.ids[m.sc.Origin]
+	found := false
+	for _, f := range m.net.sent {
+		if x >= 0 && f.To != x {
+			continue
+		}
+		adv := nsAdvInfo(f.Bytes)
+		if adv == nil || adv.OriginAgent != oid || f.From == m.sc.Origin {
+			continue
+		}
+		if len(adv.SeenBy) > 0 && adv.SeenBy[0] == oid {
+			continue
+		}
+		if why == "replay-used-same-sequence" && (adv.Sequence < lo || adv.Sequence > hi) {
+			continue
+		}
+		if why == "replay-used-higher-sequence" && adv.Sequence <= hi {
+			continue
+		}
+		relay := f.From
+		if len(adv.SeenBy) > 0 {
+			relay = m.net.idx(adv.SeenBy[0])
+		}
+		own, ok := m.stampOwn[[2]uint64{uint64(relay), adv.Sequence}]
+		if !ok || own >= lo {
+			return ""
+		}
+		found = true
+	}
+	if found {
+		return c14Behind
+	}
+	return ""
+}
+
 // originRoutes returns agent x's routes with origin O: "kind|key" -> route.
 func (m *c14Mesh) originRoutes(x int) map[string]nsRoute {
 	out := map[string]nsRoute{}
@@ -289,7 +382,7 @@ func (m *c14Mesh) key(hist []string) string {
 	for gi, g := range m.gens {
 		fmt.Fprintf(&sb, "gen%d seq=%d-%d S=%v", gi, g.Lo, g.Seq, g.S)
 	}
-	fmt.Fprintf(&sb, " sent=%v", m.sentTo())
+	fmt.Fprintf(&sb, " sent=%v own=%v", m.sentTo(), m.own)
 	return sb.String()
 }
 
@@ -341,8 +434,9 @@ func c14Oracle(r *vmc.Result, m *c14Mesh, hist []string, expected []string) {
 				continue
 			}
 			why := c14Why(m.replaySeqs(-1), g.Lo, g.Seq)
+			why += m.regime(-1, g.Lo, g.Seq, why)
 			r.Violate("C14/announcement-not-delivered/"+why,
-				fmt.Sprintf("%s: announcement (origin n%d, seq %d) was never sent to n%d, which was connected to the origin when it was issued (history %v)", sc, sc.Origin, g.Seq, x, hist), rep())
+				fmt.Sprintf("%s: announcement (origin n%d, seq %d) was never sent to n%d, which was connected to the origin when it was issued (sequence counters now %v, by own numbering %v) (history %v)", sc, sc.Origin, g.Seq, x, m.counters(), m.own, hist), rep())
 		}
 	}
 	// renewed
@@ -366,12 +460,14 @@ func c14Oracle(r *vmc.Result, m *c14Mesh, hist []string, expected []string) {
 			}
 		}
 		why := c14Why(m.replaySeqs(x), last.Lo, last.Seq)
+		why += m.regime(x, last.Lo, last.Seq, why)
 		if !gotIt {
 			why = "announcement-not-delivered-to-it"
 			if c14Why(m.replaySeqs(-1), last.Lo, last.Seq) == "replay-used-same-sequence" {
-				why = "replay-used-same-sequence"
+				why = "replay-used-same-sequence" + m.regime(-1, last.Lo, last.Seq, "replay-used-same-sequence")
 			}
 		}
+		ctr := fmt.Sprintf("sequence counters now %v, by own numbering %v", m.counters(), m.own)
 		var staleMax uint64
 		for _, b := range before {
 			if b.Age > m.ttl && b.Seq > staleMax {
@@ -386,10 +482,10 @@ func c14Oracle(r *vmc.Result, m *c14Mesh, hist []string, expected []string) {
 			ok = false
 			if b, had := before[k]; had {
 				r.Violate("C14/route-not-renewed/"+why,
-					fmt.Sprintf("%s: after announcement (origin n%d, seq %d) was delivered everywhere, n%d's %s route (stored seq %d, next hop %s, written before the announcement; highest stale stored seq of the origin %d) was not renewed and the real CleanupStale* removed it (history %v)", sc, sc.Origin, last.Seq, x, k, b.Seq, nt.name(b.NextHop), staleMax, hist), rep())
+					fmt.Sprintf("%s: after announcement (origin n%d, seq %d) was delivered everywhere, n%d's %s route (stored seq %d, next hop %s, written before the announcement; highest stale stored seq of the origin %d) was not renewed and the real CleanupStale* removed it (%s) (history %v)", sc, sc.Origin, last.Seq, x, k, b.Seq, nt.name(b.NextHop), staleMax, ctr, hist), rep())
 			} else {
 				r.Violate("C14/route-not-renewed/"+why,
-					fmt.Sprintf("%s: after announcement (origin n%d, seq %d) was delivered everywhere, n%d holds no %s route of the origin (highest stale stored seq of the origin %d) (history %v)", sc, sc.Origin, last.Seq, x, k, staleMax, hist), rep())
+					fmt.Sprintf("%s: after announcement (origin n%d, seq %d) was delivered everywhere, n%d holds no %s route of the origin (highest stale stored seq of the origin %d) (%s) (history %v)", sc, sc.Origin, last.Seq, x, k, staleMax, ctr, hist), rep())
 			}
 		}
 		if ok {
@@ -470,8 +566,17 @@ func TestVerif_C14(t *testing.T) {
 	// controls (must never alarm): relay behind the origin; no late link at all
 	scs = append(scs, c14Scenario{N: 3, Edges: [][2]int{{0, 1}}, LateEdges: [][2]int{{1, 2}}, Origin: 0, Budget: []int{2, 1, 0}})
 	scs = append(scs, c14Scenario{N: 3, Edges: [][2]int{{0, 1}, {1, 2}}, Origin: 0, Budget: []int{2, 1, 0}, Pre: pre(3, 1, o0+1)})
+	// the opposite regime, the ORIGIN has been up longer than the relay (Pre announcements of O while it was
+	// alone): a relay numbering from its own counter stamps every replay far below O's numbers, so nothing
+	// here may alarm -- and a replay that does land on or above O's next numbers is reported under its own
+	// witness class (c14Behind)
+	scs = append(scs, c14Scenario{N: 3, Edges: [][2]int{{0, 1}}, LateEdges: [][2]int{{1, 2}}, Origin: 0, Budget: []int{2, 1, 0}, Pre: pre(3, 0, 3)})
+	scs = append(scs, c14Scenario{N: 4, Edges: [][2]int{{0, 1}, {2, 3}}, LateEdges: [][2]int{{1, 2}}, Origin: 0, Budget: []int{2, 0, 0, 0}, Pre: pre(4, 0, 3)})
 	if r.Thorough() {
 		scs = append(scs,
+			c14Scenario{N: 3, Edges: [][2]int{{0, 1}}, LateEdges: [][2]int{{1, 2}}, Origin: 0, Budget: []int{3, 2, 0}, Pre: []int{4, 1, 0}},
+			c14Scenario{N: 3, Edges: [][2]int{{0, 1}, {0, 2}}, LateEdges: [][2]int{{1, 2}}, Origin: 0, Budget: []int{2, 1, 0}, Pre: pre(3, 0, 3)},
+			c14Scenario{N: 4, Edges: [][2]int{{0, 1}, {1, 2}}, LateEdges: [][2]int{{2, 3}, {1, 3}}, Origin: 0, Budget: []int{2, 0, 0, 0}, Pre: pre(4, 0, 3)},
 			c14Scenario{N: 3, Edges: [][2]int{{0, 1}}, LateEdges: [][2]int{{1, 2}}, Origin: 0, Budget: []int{3, 2, 0}, Pre: pre(3, 1, o0+1)},
 			c14Scenario{N: 3, Edges: [][2]int{{0, 1}}, LateEdges: [][2]int{{1, 2}}, Origin: 0, Budget: []int{3, 3, 0}},
 			c14Scenario{N: 4, Edges: [][2]int{{0, 1}, {2, 3}}, LateEdges: [][2]int{{1, 2}}, Origin: 0, Budget: []int{2, 2, 0, 0}, Pre: pre(4, 1, o0+1)},
